@@ -14,6 +14,7 @@
 
 import os
 import copy
+import errno
 import signal
 import socket
 import contextlib
@@ -179,4 +180,8 @@ class RemoteContext(SupportRemoteGetState):
             self._children.append(child)
             return True
         except ConnectionClosedError:
+            return False
+        except OSError as e:
+            if e.errno != errno.ENOTCONN:
+                raise
             return False
